@@ -11,7 +11,7 @@ fn size_class(r: &mut Rng) -> usize {
     match r.weighted(&[8, 10, 14, 10, 12, 10, 8, 6, 4, 3]) {
         0 => 0,
         1 => 1,
-        2 => r.range(2, 40) as usize,
+        2 => if r.chance(1, 6) { *r.pick(&[62usize, 63, 64, 65]) } else { r.range(2, 40) as usize },
         3 => r.range(41, 600) as usize,
         4 => r.range(1150, 1199) as usize,
         5 => *r.pick(&[1199usize, 1200, 1201, 1202, 1203]),
